@@ -69,7 +69,7 @@ class Emit(WireUnit):
                           "puresnmp.plugins.pluginbase:discover_plugins",
                           "puresnmp_plugins.mpm.%s:%sMPM.encode" % (mv, family),
                           "puresnmp_plugins.security.%s:SNMP%sSecurityModel.generate_request_message" % (mv, mv))
-        self.name = "%s %s[%d oids%s]" % (family, op, k, ", non-repeaters=%d, max-repetitions=%d" % (ns, m) if m is not None else "")
+        self.name = "%s %s[%d oids%s]" % (family, op, k, ", non-repeaters=%d, max-repetitions=%s" % (ns, m) if m is not None else "")
 
     def run(self, interp):
         ctx, rt = interp.ctx, self.rt
@@ -98,7 +98,13 @@ class Emit(WireUnit):
             args, tag, vals = [PDict(list(zip(oids, values)))], rfc.SET, [WVal(v) for v in values]
         elif self.op == "bulkget":
             args, tag, vals = [list(oids[:self.ns]), list(oids[self.ns:])], rfc.GETBULK, [None] * self.k
-        kwargs = {"max_list_size": self.m} if self.op == "bulkget" else {}
+        if self.op == "bulkget" and self.m == "any":
+            # the caller's max-repetitions is whatever the caller says (0 included): it is what the datagram must carry
+            self.m_val = ctx.fresh_int("max_repetitions")
+            ctx.assume(self.m_val >= 0)
+        else:
+            self.m_val = self.m
+        kwargs = {"max_list_size": self.m_val} if self.op == "bulkget" else {}
         exc = None
         try:
             interp.call(BoundMethod(fn, client), args, kwargs)
@@ -114,7 +120,7 @@ class Emit(WireUnit):
         rid = None
         # the request id is whatever the clock said; find it in the emitted term through the spec: it must be ONE value
         rid = self.clock_vals[0] if self.clock_vals else SInt(z3.Int("no-clock-read"))
-        f1, f2 = (self.ns, self.m) if self.op == "bulkget" else (0, 0)
+        f1, f2 = (self.ns, self.m_val) if self.op == "bulkget" else (0, 0)
         version = 0 if self.family == "V1" else 1
         spec = rfc.community_message(version, SBytes(rt.f_str_ascii(creds.fields["community"].e)),
                                      rfc.pdu(tag, rid, f1, f2, list(zip(oids, vals)), F), F)
@@ -125,7 +131,8 @@ class Emit(WireUnit):
 
 class Receive(WireUnit):
     """V1MPM/V2CMPM.decode + PDU.decode_raw on a well-formed response."""
-    props = ("C06", "C08", "C20")
+    props = ("C06", "C07", "C08", "C20")
+    may_be_empty = True
 
     def __init__(self, family, k, error):
         self.family, self.k, self.error = family, k, error
@@ -134,7 +141,7 @@ class Receive(WireUnit):
         self.functions = (self.target, "puresnmp.pdu:PDU.decode_raw", "puresnmp.exc:ErrorResponse.construct",
                           "puresnmp.exc:ErrorResponse.__init__",
                           "puresnmp_plugins.security.%s:SNMP%sSecurityModel.process_incoming_message" % (mv, mv))
-        self.props = ("C08", "C20") if error else ("C06", "C20")
+        self.props = ("C08", "C20") if error else ("C06", "C07", "C20")
         self.name = "%s response[%d bindings, %s]" % (family, k, "error-status != 0" if error else "error-status == 0")
 
     def witness(self, ob, model):
@@ -197,6 +204,8 @@ class Receive(WireUnit):
             ctx.check(oname("C06", "puresnmp.pdu:PDU.decode_raw", "ensures", "same-number-of-bindings"), ok)
             conds = [interp.eq(f.get("request_id"), rid), interp.eq(f.get("error_status"), es), interp.eq(f.get("error_index"), ei)]
             ctx.check(oname("C06", "puresnmp.pdu:PDU.decode_raw", "ensures", "request-id-and-error-fields-as-sent"), And(*conds))
+            # C07 compares the id the caller sent with THIS value: it must be the id on the wire (not masked, not truncated)
+            ctx.check(oname("C07", "puresnmp.pdu:PDU.decode_raw", "ensures", "the-decoded-request-id-is-the-id-on-the-wire"), conds[0])
             if ok:
                 ctx.check(oname("C06", "puresnmp.pdu:PDU.decode_raw", "ensures", "bindings-in-order-with-the-type-and-value-sent"),
                           And(*[And(interp.eq(vbs[i][0], oids[i]), interp.eq(vbs[i][1], vals[i])) for i in range(self.k)]))
@@ -351,6 +360,7 @@ def units_c05(tier):
                 us.append(Emit(fam, op, k))
         us.append(Emit(fam, "bulkget", 2, m=ctxless_int(3), ns=1))
         us.append(Emit(fam, "bulkget", 1, m=ctxless_int(1), ns=0))
+        us.append(Emit(fam, "bulkget", 2, m="any", ns=1))
         us.append(EmitAfterReconfigure(fam, False))
         us.append(EmitAfterReconfigure(fam, True))
     return us
@@ -377,6 +387,7 @@ def units_c19(tier):
     us.append(TrapDelivery(1, False))
     us.append(TrapReceiver(False))
     us.append(TrapReceiver(True))
+    us.append(TrapReceiver(False, ipv6=True))
     return us
 
 
@@ -449,9 +460,10 @@ class TrapReceiver(VU):
     target = "puresnmp.transport:SNMPTrapReceiverProtocol.datagram_received"
     functions = (target,)
 
-    def __init__(self, callback_raises):
-        self.callback_raises = callback_raises
-        self.name = "SNMPTrapReceiverProtocol.datagram_received[callback %s]" % ("raises" if callback_raises else "returns")
+    def __init__(self, callback_raises, ipv6=False):
+        self.callback_raises, self.ipv6 = callback_raises, ipv6
+        self.name = "SNMPTrapReceiverProtocol.datagram_received[callback %s%s]" % (
+            "raises" if callback_raises else "returns", ", IPv6 peer (4-tuple address)" if ipv6 else "")
 
     def setup(self, rt, interp):
         self.rt = rt
@@ -472,6 +484,9 @@ class TrapReceiver(VU):
                     {"callback": Builtin("callback", callback), "transport": Obj(tcls)})
         data = ctx.fresh_bytes("datagram")
         addr = (ctx.fresh_str("peer"), ctx.fresh_int("port"))
+        if self.ipv6:
+            # asyncio hands an AF_INET6 peer over as (host, port, flowinfo, scope_id)
+            addr = addr + (ctx.fresh_int("flowinfo"), ctx.fresh_int("scope_id"))
         exc = None
         try:
             interp.call(BoundMethod(get_func(rt, interp, self.target), proto), [data, addr], {})
